@@ -21,6 +21,33 @@ CLAIMS = {
     technique="AST + CFG exception-edge containment, interprocedural caller containment, provenance of error objects, "
               "loop-pattern termination arguments with dominating guard facts",
     ref="DESIGN.md 3/C04"),
+ "C07": dict(
+    text="Static, all-paths over the dict-based and attribute-based mutators: the dict subclass overrides every "
+         "mutating dict method (R07a); every write to raw storage stores the result of a parse call (R07b); every raw "
+         "removal is dominated by the immutable / is_required guards (R07c); copy() binds fresh storage (R07d); setter "
+         "contexts are forced, handle_error honours force_error, and the parse result is tested against the sentinel "
+         "before it is stored (R07e); the dependants recomputation is reached after every store (R07f).",
+    note="Undecided: recomputation after deletion of a dependency; equality of the attribute and key views as values.",
+    technique="mutator-table exhaustiveness, provenance typestate (RAW/PARSED) of stored values, dominating guard facts",
+    ref="DESIGN.md 3/C07"),
+ "C10": dict(
+    text="Static: the may-return model of handle_error is validated against its source; at every non-forced "
+         "handle_error site the fall-through code reads no variable whose only binding is the failed try body and does "
+         "not index past a fallen-through range check (R10a); every context owner passes raise_error() between any "
+         "point that may record an error (directly or via helpers sharing its context) and a normal return (R10b); the "
+         "max_errors cap follows the append on every returning path with relation >= (R10c); only handle_error "
+         "branches on collect_errors (R10d).",
+    note="Undecided: that the collected set names exactly the failing items (value-level).",
+    technique="CFG reachability avoiding flush nodes, reaching definitions over exceptional edges, who-may-read rule",
+    ref="DESIGN.md 3/C10"),
+ "C16": dict(
+    text="Static: every write to the registration list is followed on all paths by a reset of the resolve memo (R16a); "
+         "after each front insertion the list is unconditionally stably sorted by the priority component, descending "
+         "(R16b); every registration criterion reaches the generated detector with the documented polarity (R16c); "
+         "resolve consults shortcut, memo keyed by the type, the list in order, base, default (R16d).",
+    note="Scoped to TypeRegistry; Rule.__origin_transformer__ memoisation at declaration time is documented behaviour.",
+    technique="write/invalidate pairing on the CFG, idiom table for order maintenance, guard-fact polarity checks",
+    ref="DESIGN.md 3/C16"),
 }
 
 NOT_APPLICABLE = {
